@@ -25,6 +25,9 @@ def gen(rng, tier, index):
     if index < len(exhaust.TEMPLATES):
         return {'kind': 'exhaust', 'template': list(exhaust.TEMPLATES[index]), 'machine': '48K'}
     index -= len(exhaust.TEMPLATES)
+    if index < len(exhaust.CLOCK_TEMPLATES):
+        return {'kind': 'exhaust', 'template': list(exhaust.CLOCK_TEMPLATES[index]), 'machine': '48K'}
+    index -= len(exhaust.CLOCK_TEMPLATES)
     if index < frames.n_edge():
         return frames.edge_scenario(index)
     index -= frames.n_edge()
@@ -307,7 +310,8 @@ def run_tool(scn, res):
 
 def run_exhaust(scn):
     res = new_result()
-    bad, n = exhaust.run(tuple(scn['template']), ['py', 'c', 'pycmio', 'ccmio'], False, lambda vc, d: (vc, d))
+    runner = exhaust.run_clock if scn['template'][0] == 'clock' else exhaust.run
+    bad, n = runner(tuple(scn['template']), ['py', 'c', 'pycmio', 'ccmio'], False, lambda vc, d: (vc, d))
     bump(res, 'events', n)
     bump(res, 'table_entries_compared', n)
     if bad:
